@@ -11,6 +11,7 @@ mod searchprops;
 mod jsonproto;
 mod c15;
 mod c07;
+mod c11;
 
 use ctx::{Ctx, Tier};
 
@@ -68,6 +69,7 @@ fn main() {
         "C10" => searchprops::run(&mut ctx, searchprops::Prop::C10),
         "C15" => c15::run(&mut ctx),
         "C07" => c07::run(&mut ctx),
+        "C11" => c11::run(&mut ctx),
         _ => {
             eprintln!("unknown property {}", prop);
             std::process::exit(2);
